@@ -141,6 +141,8 @@ def _recipe_variants(r):
 def _op_variants(op):
     if op["op"] == "new":
         for v in _recipe_variants(op["recipe"]):
+            if v[0] in ("var", "str", "ref"):
+                continue   # a model handle must stay a compound proposition
             o = dict(op)
             o["recipe"] = v
             yield o
